@@ -45,8 +45,8 @@ Fixpoint dedup_str (l : list string) : list string :=
 Definition diff_value (name : string) (m i : value) : list string :=
   if value_eqb m i then [] else
   match m, i with
-  | VL (VL [_; _] :: _ as ml), VL il => dedup_str (diff_records name ml il)
-  | VL ml, VL (VL [_; _] :: _ as il) => dedup_str (diff_records name ml il)
+  | VL ((VL [_; _] :: _) as ml), VL il => dedup_str (diff_records name ml il)
+  | VL ml, VL ((VL [_; _] :: _) as il) => dedup_str (diff_records name ml il)
   | VL [VL f1], VL [VL f2] => map (fun n => name +:+ "#" +:+ nat_str n) (diff_fields 0 f1 f2)
   | _, _ => [name]
   end.
@@ -224,4 +224,16 @@ Definition check_step (pre ctx op outcome post : value) : value :=
            | None => VL [VS "unmodelled"]
            end end
   | _, _, _, _ => res_undecodable "frame"
+  end.
+
+(* debugging aid: the model's post-state for one step *)
+Definition model_post (pre ctx op : value) : value :=
+  match dec_tables pre, dec_ctx ctx with
+  | Some pre, Some cx =>
+      match dec_state pre, dec_op op with
+      | Some s, Some o => let '(s', out) := step cx s o in
+                          VL [VS (outcome_str out); VS (outcome_detail out); VL (map (fun kv => VL [VS kv.1; kv.2]) (enc_state s'))]
+      | _, _ => VS "undecodable"
+      end
+  | _, _ => VS "undecodable"
   end.
